@@ -231,11 +231,40 @@ def deep_directed_def(rng):
     return GDef("perm", gens, central, tag="deep-directed")
 
 
+def duplicate_neighbour_def(rng):
+    """Graphs in which a state has the SAME neighbour under several generators (coset graphs where many generators
+    fix a state, or a generator listed twice at low indices) and layers of a few dozen states."""
+    from cayleypy import PermutationGroups as PG
+
+    r = rng.random()
+    if r < 0.5:
+        n = rng.randint(6, 9)
+        gens = [list(g) for g in PG.all_transpositions(n).generators_permutations]
+        rng.shuffle(gens)
+        k = rng.randint(2, n - 2)
+        central = [0] * k + [1] * (n - k)
+        if rng.random() < 0.3:
+            central[-1] = 2
+        rng.shuffle(central)
+        tag = "dup-neighbour-transpositions"
+    else:
+        n = rng.randint(5, 7)
+        base = [rand_perm(rng, n) for _ in range(2)]
+        gens = [list(base[0]), list(base[0]), list(base[1])] + [inv_perm(p) for p in base]
+        if rng.random() < 0.5:
+            gens.insert(0, list(base[1]))
+        central = list(range(n)) if rng.random() < 0.6 else [i % 3 for i in range(n)]
+        tag = "dup-neighbour-repeated-generator"
+    return GDef("perm", gens, central, tag=tag)
+
+
 def gen_perm_def(rng, cap_n=9):
     """Mostly valid permutation definitions with small orbits."""
     r = rng.random()
     if r < 0.06:
         return deep_directed_def(rng)
+    if r < 0.12:
+        return duplicate_neighbour_def(rng)
     if r < 0.25:
         n = rng.randint(3, min(cap_n, 7))
         gens, tag = named_family(rng, n)
